@@ -28,6 +28,9 @@ static int nerr;
 static void on_err (int a, void *b, int c, void *d, int e, void *f) { nerr++; (void) a; (void) b; (void) c; (void) d; (void) e; (void) f; }
 static void *al (int n) { return malloc ((size_t) n); }
 static void fr (void *p) { free (p); }
+/* tree memory that is not subject to the injected allocation failures (they model internal requests of the library) */
+static char arena[1 << 15]; static unsigned long arena_top;
+static void *arena_al (int n) { void *p = arena + arena_top; arena_top += ((unsigned long) n + 15) & ~15UL; if (arena_top > sizeof arena) return NULL; return p; }
 static int clamp_la (int v) { return v < 0 ? 0 : v > 2 ? 2 : v; }
 static int declared (int c) { int i, r = 0; for (i = 0; i < ncodes; i++) r |= (codes[i] == c); return r; }
 
@@ -86,9 +89,36 @@ void harness (void)
     }
   else if (mode == 2)
     { /* undefined grammar, allocator contract, error state sequence */
-      int step = sx_choice ("scenario", 6), rc2;
+      int step = sx_choice ("scenario", 8), rc2;
       ntok = 0; rd = 0;
-      if (step == 0)
+      if (step >= 6)
+        { /* settings survive a parse: every setter still returns the value set before the parse - also when the parse
+             runs out of memory at an arbitrary internal allocation (step 7) */
+          int v1 = sx_int ("one"), v2 = sx_int ("cost"), v3 = sx_int ("rec"), v4 = sx_int ("match"), v5 = sx_int ("la"), r; long A = 0;
+          ncodes = 1; codes[0] = 7; ti = ri = 0; rc = yaep_read_grammar (g, 1, rd_term, rd_rule); sx_assert (rc == 0, "grammar accepted");
+          yaep_set_one_parse_flag (g, v1); yaep_set_cost_flag (g, v2); yaep_set_error_recovery_flag (g, v3); yaep_set_recovery_match (g, v4); yaep_set_lookahead_level (g, v5);
+          ntok = 3; tokc[0] = tokc[1] = tokc[2] = 7;
+          if (step == 7)
+            { /* dry run on a twin to count the allocations */
+              struct grammar *h = yaep_create_grammar (); sx_assume (h != NULL);
+              ti = ri = 0; sx_assume (yaep_read_grammar (h, 1, rd_term, rd_rule) == 0);
+              yaep_set_one_parse_flag (h, v1); yaep_set_cost_flag (h, v2); yaep_set_error_recovery_flag (h, v3); yaep_set_recovery_match (h, v4); yaep_set_lookahead_level (h, v5);
+              rd = 0; sx_fail_alloc_at (-1); rc2 = yaep_parse (h, read_tok, on_err, arena_al, NULL, &root, &amb); A = sx_alloc_count (); yaep_free_grammar (h);
+              sx_assume (rc2 == 0 && A > 0);
+              sx_fail_alloc_at (sx_range ("fail_at", 0, (int) A - 1));
+            }
+          rd = 0; nerr = 0; arena_top = 0;
+          rc = yaep_parse (g, read_tok, on_err, arena_al, NULL, &root, &amb);
+          sx_fail_alloc_at (-1);
+          sx_observe ("rc", rc);
+          sx_assert (rc == (step == 7 ? YAEP_NO_MEMORY : 0), "parse outcome as expected");
+          r = yaep_set_one_parse_flag (g, 1); sx_assert (r == v1, "after a parse the one-parse setter returns the value set before it");
+          r = yaep_set_cost_flag (g, 0); sx_assert (r == v2, "after a parse the cost setter returns the value set before it");
+          r = yaep_set_error_recovery_flag (g, 1); sx_assert (r == v3, "after a parse the recovery setter returns the value set before it");
+          r = yaep_set_recovery_match (g, 3); sx_assert (r == v4, "after a parse the recovery-match setter returns the value set before it");
+          r = yaep_set_lookahead_level (g, 1); sx_assert (r == clamp_la (v5), "after a parse the lookahead setter returns the (clamped) value set before it");
+        }
+      else if (step == 0)
         {
           rc = yaep_parse (g, read_tok, on_err, al, NULL, &root, &amb);
           sx_assert (rc == YAEP_UNDEFINED_OR_BAD_GRAMMAR, "parse on an undefined grammar returns YAEP_UNDEFINED_OR_BAD_GRAMMAR");
